@@ -45,3 +45,69 @@ Proof.
   list_eq.
   all: match goal with |- ?a = _ => slice a 16%nat end; drop_rest; decide_cmps; lra.
 Qed.
+
+(* moment alone achievable (the spread of the moment part fits in F_max): every motor gets its moment part plus the
+   common thrust part plus ONE common shift c, so the realised moment is the demanded one; the shift is the least needed:
+   zero, or upwards until the emptiest motor is at 0, or downwards until the fullest motor is at F_max *)
+Ltac cut_at v := match goal with H : Eqn v _ |- _ => clear H end.
+
+Definition spread4 (a b c d m : R) : Prop :=
+  a - b <= m /\ a - c <= m /\ a - d <= m /\ b - a <= m /\ b - c <= m /\ b - d <= m /\
+  c - a <= m /\ c - b <= m /\ c - d <= m /\ d - a <= m /\ d - b <= m /\ d - c <= m.
+Definition least_shift (c lo hi p0 p1 p2 p3 : R) : Prop :=
+  c = 0 \/ (0 < c /\ (p0 = lo \/ p1 = lo \/ p2 = lo \/ p3 = lo)) \/ (c < 0 /\ (p0 = hi \/ p1 = hi \/ p2 = hi \/ p3 = hi)).
+
+Lemma max4_spec m a b c d : m = Rmax (Rmax (Rmax a b) c) d ->
+  (a <= m /\ b <= m /\ c <= m /\ d <= m) /\ (m = a \/ m = b \/ m = c \/ m = d).
+Proof.
+  intros ->. destruct (Rmax_spec a b) as [[E1 ?]|[E1 ?]]; rewrite E1;
+  match goal with |- context [Rmax (Rmax ?x c) d] => destruct (Rmax_spec x c) as [[E2 ?]|[E2 ?]]; rewrite E2 end;
+  match goal with |- context [Rmax ?x d] => destruct (Rmax_spec x d) as [[E3 ?]|[E3 ?]]; rewrite E3 end;
+  (split; [repeat split; lra | auto]).
+Qed.
+Lemma min4_spec m a b c d : m = Rmin (Rmin (Rmin a b) c) d ->
+  (m <= a /\ m <= b /\ m <= c /\ m <= d) /\ (m = a \/ m = b \/ m = c \/ m = d).
+Proof.
+  intros ->. destruct (Rmin_spec a b) as [[E1 ?]|[E1 ?]]; rewrite E1;
+  match goal with |- context [Rmin (Rmin ?x c) d] => destruct (Rmin_spec x c) as [[E2 ?]|[E2 ?]]; rewrite E2 end;
+  match goal with |- context [Rmin ?x d] => destruct (Rmin_spec x d) as [[E3 ?]|[E3 ?]]; rewrite E3 end;
+  (split; [repeat split; lra | auto]).
+Qed.
+
+Lemma alloc_moment_kept F_max l Cm Ct T M0 M1 M2 : 0 <= F_max ->
+  rdd2_control_allocation_wp F_max l Cm Ct T M0 M1 M2 (fun r =>
+    spread4 (nth 8 r 0) (nth 9 r 0) (nth 10 r 0) (nth 11 r 0) F_max ->
+    (nth 12 r 0 = nth 13 r 0 /\ nth 13 r 0 = nth 14 r 0 /\ nth 14 r 0 = nth 15 r 0) /\
+    exists c, nth 4 r 0 = nth 8 r 0 + nth 12 r 0 + c /\ nth 5 r 0 = nth 9 r 0 + nth 13 r 0 + c /\
+              nth 6 r 0 = nth 10 r 0 + nth 14 r 0 + c /\ nth 7 r 0 = nth 11 r 0 + nth 15 r 0 + c /\
+              least_shift c 0 F_max (nth 4 r 0) (nth 5 r 0) (nth 6 r 0) (nth 7 r 0)).
+Proof.
+  intro HF. wp_intro rdd2_control_allocation_wp. cbv beta iota delta [nth spread4 least_shift] in *. all_eqns.
+  match goal with |- (?t0 = ?t1 /\ ?t1 = ?t2 /\ ?t2 = ?t3) /\ _ =>
+    assert (Ht : t0 = t1 /\ t1 = t2 /\ t2 = t3) by (slice t0 1%nat; slice t1 1%nat; slice t2 1%nat; slice t3 1%nat; drop_rest; lra);
+    split; [exact Ht|]; cut_at t0; cut_at t1; cut_at t2; cut_at t3 end.
+  match goal with |- exists c, _ = ?m0 + _ + c /\ _ = ?m1 + _ + c /\ _ = ?m2 + _ + c /\ _ = ?m3 + _ + c /\ _ =>
+    cut_at m0; cut_at m1; cut_at m2; cut_at m3 end.
+  slice_goal 40%nat. drop_rest.
+  (* the max / min of the summed motor forces: 4 x 4 cases *)
+  destruct H as (S1 & S2 & S3 & S4 & S5 & S6 & S7 & S8 & S9 & S10 & S11 & S12). destruct Ht as (T1 & T2 & T3).
+  match goal with H3 : ?mx = Rmax ?x2 ?d, H2 : ?x2 = Rmax ?x1 ?c, H1 : ?x1 = Rmax ?a ?b, Hc : _ = F_max - ?mx |- _ =>
+    rewrite H1 in H2; rewrite H2 in H3; clear H1 H2; destruct (max4_spec _ _ _ _ _ H3) as [(?&?&?&?) Emx]; clear H3 end.
+  match goal with H3 : ?mn = Rmin ?x2 ?d, H2 : ?x2 = Rmin ?x1 ?c, H1 : ?x1 = Rmin ?a ?b |- _ =>
+    rewrite H1 in H2; rewrite H2 in H3; clear H1 H2; destruct (min4_spec _ _ _ _ _ H3) as [(?&?&?&?) Emn]; clear H3 end.
+  repeat match goal with H : _ = Rmax _ _ |- _ => clear H | H : _ = Rabs _ |- _ => clear H | H : _ = op_lt (_ / _) _ |- _ => clear H end.
+  match goal with H : ?a = op_and ?c1 ?c2, H1 : ?c1 = op_lt ?x 0, H2 : ?c2 = op_lt ?y 0 |- _ =>
+    destruct (Rlt_dec x 0) as [L1|L1]; [rewrite (op_lt_true x 0 L1) in H1 | apply Rnot_lt_le in L1; rewrite (op_lt_false x 0 L1) in H1];
+    (destruct (Rlt_dec y 0) as [L2|L2]; [rewrite (op_lt_true y 0 L2) in H2 | apply Rnot_lt_le in L2; rewrite (op_lt_false y 0 L2) in H2]) end.
+  1: exfalso; destruct Emx as [Emx|[Emx|[Emx|Emx]]]; destruct Emn as [Emn|[Emn|[Emn|Emn]]]; lra.
+  all: simp_bools.
+  all: decide_cmps_lra.
+  all: match goal with |- exists c, ?p0 = ?m0 + ?t0 + c /\ _ => exists (p0 - m0 - t0) end.
+  all: split; [lra|]; split; [lra|]; split; [lra|]; split; [lra|].
+  (* thrust lowered by C1: the fullest motor ends at F_max *)
+  - right; right. split; [lra|]. destruct Emx as [Emx|[Emx|[Emx|Emx]]]; [left | right; left | right; right; left | right; right; right]; lra.
+  (* thrust raised by -C2: the emptiest motor ends at 0 *)
+  - right; left. split; [lra|]. destruct Emn as [Emn|[Emn|[Emn|Emn]]]; [left | right; left | right; right; left | right; right; right]; lra.
+  (* jointly achievable: no shift *)
+  - left. lra.
+Qed.
